@@ -5,9 +5,14 @@ package main
 import (
 	"fmt"
 	"go/ast"
+	"go/constant"
+	goparser "go/parser"
+	"go/token"
 	"go/types"
+	"path/filepath"
 	"os"
 	"sort"
+	"strconv"
 	"strings"
 
 	"golang.org/x/tools/go/packages"
@@ -24,6 +29,7 @@ type Program struct {
 	SSAPkgs map[string]*ssa.Package // by import path
 	Funcs   map[string]*ssa.Function // by contract key: <pkgpath>.<Recv>.<Name> / <pkgpath>.<Name>
 	Specs   *SpecDB
+	maccPerms map[string][]string
 }
 
 type SpecDB struct {
@@ -219,4 +225,163 @@ func inRepo(fn *ssa.Function) bool {
 		return inRepo(fn.Parent())
 	}
 	return pkg != nil && strings.HasPrefix(pkg.Path(), repoModule)
+}
+
+// globalBytesLen: length of a package-level []byte / string variable initialised with a literal
+// (`[]byte{0x00}`, `[]byte("abc")`, "abc"); read from the declaration's AST.
+func (p *Program) globalBytesLen(g *ssa.Global) (int, bool) {
+	for _, pk := range p.Pkgs {
+		if pk.Types != g.Pkg.Pkg {
+			continue
+		}
+		for _, f := range pk.Syntax {
+			for _, d := range f.Decls {
+				gd, ok := d.(*ast.GenDecl)
+				if !ok {
+					continue
+				}
+				for _, sp := range gd.Specs {
+					vs, ok := sp.(*ast.ValueSpec)
+					if !ok {
+						continue
+					}
+					for i, nm := range vs.Names {
+						if nm.Name != g.Name() || i >= len(vs.Values) {
+							continue
+						}
+						switch e := vs.Values[i].(type) {
+						case *ast.CompositeLit:
+							return len(e.Elts), true
+						case *ast.BasicLit:
+							if s, err := strconv.Unquote(e.Value); err == nil {
+								return len(s), true
+							}
+						case *ast.CallExpr:
+							if len(e.Args) == 1 {
+								if bl, ok := e.Args[0].(*ast.BasicLit); ok {
+									if s, err := strconv.Unquote(bl.Value); err == nil {
+										return len(s), true
+									}
+								}
+							}
+						}
+					}
+				}
+			}
+		}
+	}
+	return 0, false
+}
+
+// MaccPerms reads the module-account permission table from the composite literal assigned to
+// `maccPerms` in /repo/app/app.go (re-read on every run). Keys and permissions are constants of
+// dependency packages, resolved through the loaded type information.
+func (p *Program) MaccPerms() (map[string][]string, error) {
+	if p.maccPerms != nil {
+		return p.maccPerms, nil
+	}
+	fset := token.NewFileSet()
+	f, err := goparser.ParseFile(fset, filepath.Join(p.Dir, "app", "app.go"), nil, 0)
+	if err != nil {
+		return nil, err
+	}
+	alias := map[string]string{}
+	for _, im := range f.Imports {
+		path, _ := strconv.Unquote(im.Path.Value)
+		name := path[strings.LastIndex(path, "/")+1:]
+		if im.Name != nil {
+			name = im.Name.Name
+		}
+		alias[name] = path
+	}
+	constOf := func(e ast.Expr) (string, bool) {
+		switch v := e.(type) {
+		case *ast.BasicLit:
+			s, err := strconv.Unquote(v.Value)
+			return s, err == nil
+		case *ast.SelectorExpr:
+			id, ok := v.X.(*ast.Ident)
+			if !ok {
+				return "", false
+			}
+			path, ok := alias[id.Name]
+			if !ok {
+				return "", false
+			}
+			return p.depConst(path, v.Sel.Name)
+		}
+		return "", false
+	}
+	res := map[string][]string{}
+	found := false
+	ast.Inspect(f, func(n ast.Node) bool {
+		vs, ok := n.(*ast.ValueSpec)
+		if !ok {
+			return true
+		}
+		for i, nm := range vs.Names {
+			if nm.Name != "maccPerms" || i >= len(vs.Values) {
+				continue
+			}
+			cl, ok := vs.Values[i].(*ast.CompositeLit)
+			if !ok {
+				continue
+			}
+			found = true
+			for _, el := range cl.Elts {
+				kv, ok := el.(*ast.KeyValueExpr)
+				if !ok {
+					continue
+				}
+				k, ok := constOf(kv.Key)
+				if !ok {
+					continue // a module of a dependency that the custom modules never import: its name cannot matter to them
+				}
+				var perms []string
+				if pl, ok := kv.Value.(*ast.CompositeLit); ok {
+					for _, pe := range pl.Elts {
+						if s, ok := constOf(pe); ok {
+							perms = append(perms, s)
+						}
+					}
+				}
+				res[k] = perms
+			}
+		}
+		return true
+	})
+	if err != nil {
+		return nil, err
+	}
+	if !found {
+		return nil, fmt.Errorf("maccPerms literal not found in app/app.go")
+	}
+	p.maccPerms = res
+	return res, nil
+}
+
+func (p *Program) depConst(path, name string) (string, bool) {
+	var val string
+	ok := false
+	seen := map[*types.Package]bool{}
+	var visit func(pk *types.Package)
+	visit = func(pk *types.Package) {
+		if seen[pk] || ok {
+			return
+		}
+		seen[pk] = true
+		if pk.Path() == path {
+			if c, isC := pk.Scope().Lookup(name).(*types.Const); isC && c.Val().Kind() == constant.String {
+				val, ok = constant.StringVal(c.Val()), true
+			}
+			return
+		}
+		for _, imp := range pk.Imports() {
+			visit(imp)
+		}
+	}
+	for _, pk := range p.Pkgs {
+		visit(pk.Types)
+	}
+	return val, ok
 }
